@@ -636,7 +636,7 @@ def main_wraps(chk, P):
 
 def documented_valid(chk, P):
     repo = P.repo
-    txt = open(os.path.join(repo, "docs", "reference", "potable_input.rst"), encoding="utf-8").read()
+    txt = F.read_rst(os.path.join(repo, "docs", "reference", "potable_input.rst"))
     try:
         i = txt.index(".. _ref-potable-input-tabulation-target:")
         j = txt.index(":Description:", i)
@@ -687,7 +687,7 @@ def documented_valid(chk, P):
     chk.ob("C16.E10", "every form with a ':potable signature:' in the manual (%d) is registered" % len(sigs), not missing,
            site=P.cls("atsim.potentials.config._potential_form_registry", "Potential_Form_Registry").site_of("__init__"), found=missing or None,
            expect="all registered", key="C16.E10|forms")
-    txt3 = open(os.path.join(repo, "docs", "reference", "potential_modifiers.rst"), encoding="utf-8").read()
+    txt3 = F.read_rst(os.path.join(repo, "docs", "reference", "potential_modifiers.rst"))
     doc_mods = set(re.findall(r"^\.\. _modifier-(\w+):", txt3, re.M))
     mr = I.instantiate(P.cls("atsim.potentials.config._modifier_registry", "Modifier_Registry"), [], {}, None)
     if len(doc_mods) < 5:
